@@ -880,7 +880,10 @@ class Interp:
     # ------------------------------------------------------------------ expressions
     def lookup(self, name, frame):
         if name in frame.env:
-            return frame.env[name]
+            v = frame.env[name]
+            if type(v).__name__ == "Undetermined":
+                raise EngineError(f"variable {name!r} is read after a loop that may not have run ({v.where}) and has no mergeable value")
+            return v
         m = frame.module
         if name in m.defs:
             n = m.defs[name]
